@@ -791,7 +791,7 @@ func verifYield(point int) {
 // verifAdopt registers the calling (library-spawned) goroutine as thread id when
 // the scheduler is on, parking it at point 0 first.
 func verifAdopt(id int) {
-	if !verifSched.on.Load() {
+	if !verifSched.on.Load() || !verifAdoptWorkers.Load() {
 		return
 	}
 	th := verifRegisterSelf(id)
@@ -811,3 +811,8 @@ func verifWorkerID[K comparable, V any](c *Cache[K, V], s *shard[K, V]) int {
 
 // VerifYield lets a harness thread park at a point of its own (0 = operation boundary).
 func VerifYield(point int) { verifYield(point) }
+
+var verifAdoptWorkers atomic.Bool
+
+// VerifSchedAdoptWorkers makes write workers started from now on schedulable threads (1000+shard).
+func VerifSchedAdoptWorkers(on bool) { verifAdoptWorkers.Store(on) }
